@@ -92,8 +92,8 @@ _PREC_COMPARISON = 200
 _PREC_SHIFT = 205
 _PREC_PLUS = 210
 _PREC_TIMES = 220
+_PREC_UNARY = 225
 _PREC_POWER = 230
-_PREC_UNARY = 240
 _PREC_CALL = 250
 
 
